@@ -151,6 +151,11 @@ class Node(object):
         # stop redis clients of this node (fake redis registers them on the node)
         for r in getattr(self, "redis_clients", []):
             r._kill()
+        se = self.state_engine
+        for name in ("asl_store", "executions", "execution_history"):
+            store = getattr(se, name, None)
+            if hasattr(store, "tracker_id"):
+                store.tracker_id = None   # a dead process runs no destructor
         self.redis_clients = []
         self.state_engine = None
         self.event_dispatcher = None
